@@ -39,7 +39,7 @@ NEXUS_STATEMENTS = [
     "MATRIX a 0.5 1.5 b 2 3;", "MATRIX", "MATRIX;", "BEGIN TREES;", "TRANSLATE 1 a, 2 b, 3 c;", "TRANSLATE 1 a, 2 b;", "TRANSLATE;",
     "TREE t = (1,2,3);", "TREE t = ((a,b),c);", "TREE * t = [&R] ((a:1,b:2):3,c:4);", "TREE t = (a,b,d);", "TREE = (a,b);", "TREE t (a,b);",
     "TREE w1 = [&W 1/2] (a,b,c);", "TREE w2 = [&W 1/0] (a,b,c);", "TREE w3 = [&W 0/0] [&R] (a,(b,c));", "TREE w4 = [&W] (a,b,c);",
-    "BEGIN SETS;", "CHARSET x = 1-3;", "CHARSET y = 1 2 .;", "CHARSET z = 1-.\\2;", "CHARSET s0 = 1-4\\0;", "CHARSET s1 = 2-1;", "CHARSET s2 = 1-3/0;", "CHARSET w = all;", "CHARSET a1 = all 3;", "CHARSET a2 = ALL 2-3;", "CHARSET a3 = 1 all;", "CHARSET v = 9;", "CHARSET;",
+    "BEGIN SETS;", "CHARSET x = 1-3;", "CHARSET y = 1 2 .;", "CHARSET z = 1-.\\2;", "CHARSET s0 = 1-4\\0;", "CHARSET s1 = 2-1;", "CHARSET s2 = 1-3/0;", "CHARSET big = 1-4000000000;", "CHARSET big2 = 2-99999999999\\3;", "CHARSET w = all;", "CHARSET a1 = all 3;", "CHARSET a2 = ALL 2-3;", "CHARSET a3 = 1 all;", "CHARSET v = 9;", "CHARSET;",
     "LINK TAXA = t;", "LINK CHARACTERS = c;", "LINK FOO = bar;", "TITLE t;", "TITLE c;", "TITLE;", "BEGIN FOO;", "bar baz;", "BEGIN;",
     "[a comment]", "[unterminated comment", "'unterminated quote",
 ]
@@ -283,7 +283,7 @@ class C20(Machine):
                         # guided: a plausible skeleton (so that later statements find their context), then a few local mutations
                         stm = ["BEGIN TAXA;", "DIMENSIONS NTAX=3;", "TAXLABELS a b c;", "END;"]
                         if rng.random() < 0.8:
-                            stm += ["BEGIN CHARACTERS;", "DIMENSIONS NCHAR=4;", rng.choice(["FORMAT DATATYPE=DNA;", "FORMAT DATATYPE=DNA MISSING=? GAP=- INTERLEAVE;",
+                            stm += ["BEGIN CHARACTERS;", rng.choice(["DIMENSIONS NCHAR=4;", "DIMENSIONS NCHAR=4;", "DIMENSIONS NTAX=2 NCHAR=4;", "DIMENSIONS NTAX=3 NCHAR=4;"]), rng.choice(["FORMAT DATATYPE=DNA;", "FORMAT DATATYPE=DNA MISSING=? GAP=- INTERLEAVE;",
                                                                                             "FORMAT DATATYPE=STANDARD SYMBOLS=\"01\";"]),
                                     rng.choice(["MATRIX a ACGT b ACGT c ACGT;", "MATRIX\na AC\nb AC\nc AC\n\na GT\nb GT\nc GT\n;", "MATRIX a 0101 b 1{01}0(01) c 0000;"]), "END;"]
                             stm += ["BEGIN SETS;"] + [rng.choice([x for x in NEXUS_STATEMENTS if x.startswith("CHARSET")]) for _ in range(rng.randint(1, 3))] + ["END;"]
